@@ -255,6 +255,11 @@ class C18(AstKindProp):
         d = diff_ir(a, b, ws=True, exact_prose=True)
         if d:
             fails.append({"what": "wrapped and unwrapped artefacts parse to different interfaces", "width": c["width"], "kind": c["kind"], "diffs": d, "text": res["wrapped_text"][:1500]})
+        elif c["kind"] in ("function", "class") and "wrapped_again" in res and "unwrapped_again" in res:
+            nw, nu = " ".join(res["wrapped_again"].split()), " ".join(res["unwrapped_again"].split())
+            if nw != nu:
+                fails.append({"what": "the next emission from the description read off the wrapped artefact differs from the one read off the unwrapped artefact", "width": c["width"], "kind": c["kind"],
+                              "from_wrapped": res["wrapped_again"][:1200], "from_unwrapped": res["unwrapped_again"][:1200]})  # fmt: skip
         return fails
 
     def py_ir(self, j):
